@@ -338,7 +338,7 @@ func attack(r *rand.Rand, s *script, ch *chain, kind string, L int, cur, tip int
 		finish()
 	case "flawed-first":
 		sp := ch.canon(cur)
-		sp.flaw = true
+		sp.flaw = 1 + r.Intn(nFlaws)
 		liarAt(cur, sp)
 		honestSecond()
 		finish()
@@ -439,7 +439,8 @@ func byzPair(r *rand.Rand, s *script, ch *chain, L int, cur, tip int64) {
 		first.txv, second.ttxv = 1, 1
 		count(attackHist, "byz-signed-alt")
 	} else {
-		first.flaw, second.tflaw = true, true
+		fk := 1 + r.Intn(nFlaws)
+		first.flaw, second.tflaw = fk, fk
 		count(attackHist, "byz-signed-invalid")
 	}
 	for i, sp := range []blockSpec{first, second} {
@@ -649,6 +650,95 @@ func genLong(r *rand.Rand, cycles int) core.Case {
 	return core.Case{Kind: "sync", ID: fmt.Sprintf("long-T%d-n%d", tip, len(s.ops)), Ops: s.ops}
 }
 
+// genTipChange: the validator set changes right at the end of the synced range (updates in the
+// blocks tip-3 / tip-2, in force at tip-1 / tip): LastValidators and Validators of the state the
+// node hands over with are different sets. Honest sync all the way, then hand-over and restart.
+func genTipChange(r *rand.Rand) core.Case {
+	for {
+		powers := pickPowers(r)
+		ih := []int64{1, 1, 2, 10}[r.Intn(4)]
+		tip := ih + int64(3+r.Intn(3))
+		cur := map[int]int64{}
+		for i, p := range powers {
+			cur[i] = p
+		}
+		var parts []string
+		for _, h := range []int64{tip - 3, tip - 2} {
+			if h < ih || (h == tip-3 && r.Intn(2) == 0) {
+				continue
+			}
+			var es []string
+			switch r.Intn(4) {
+			case 0: // power change (may re-order the set)
+				k := r.Intn(len(powers))
+				if _, ok := cur[k]; ok {
+					p := int64(1 + r.Intn(60))
+					cur[k] = p
+					es = append(es, fmt.Sprintf("%d!%d", k, p))
+				}
+			case 1: // a validator with a lot of power joins
+				for k := 0; k < nKeys-1; k++ {
+					if _, ok := cur[k]; !ok {
+						p := int64(20 + r.Intn(40))
+						cur[k] = p
+						es = append(es, fmt.Sprintf("%d!%d", k, p))
+						break
+					}
+				}
+			case 2: // one leaves
+				if len(cur) > 1 {
+					for k := 0; k < nKeys; k++ {
+						if _, ok := cur[k]; ok {
+							delete(cur, k)
+							es = append(es, fmt.Sprintf("%d!0", k))
+							break
+						}
+					}
+				}
+			case 3: // one joins and one leaves
+				added := -1
+				for k := 0; k < nKeys-1; k++ {
+					if _, ok := cur[k]; !ok {
+						cur[k] = int64(5 + r.Intn(20))
+						es = append(es, fmt.Sprintf("%d!%d", k, cur[k]))
+						added = k
+						break
+					}
+				}
+				for k := 0; k < nKeys && added >= 0; k++ {
+					if _, ok := cur[k]; ok && k != added {
+						delete(cur, k)
+						es = append(es, fmt.Sprintf("%d!0", k))
+						break
+					}
+				}
+			}
+			if len(es) > 0 {
+				parts = append(parts, fmt.Sprintf("%d:%s", h, strings.Join(es, "+")))
+			}
+		}
+		if len(parts) == 0 {
+			continue
+		}
+		vals := configOf(powers)
+		upd := strings.Join(parts, ";")
+		ch, err := getChain(vals, strconv.FormatInt(ih, 10), upd)
+		if err != nil {
+			continue
+		}
+		s := &script{}
+		s.add("init vals=%s ih=%d upd=%s", vals, ih, upd)
+		for c := ih; c < tip; c++ {
+			honestRound(s, ch, c, tip)
+		}
+		s.add("store")
+		s.add("handover")
+		s.add("restart")
+		s.add("store")
+		return core.Case{Kind: "sync", ID: fmt.Sprintf("tipchange-T%d-n%d", tip, len(s.ops)), Ops: s.ops}
+	}
+}
+
 func genSoup(r *rand.Rand) core.Case {
 	io, ch := newConfig(r, []string{"none", "any", "rotate"}[r.Intn(3)])
 	s := &script{}
@@ -663,7 +753,7 @@ func genSoup(r *rand.Rand) core.Case {
 		case 0:
 			sp.txv = 1
 		case 1:
-			sp.flaw = true
+			sp.flaw = 1 + r.Intn(nFlaws)
 		case 2, 3:
 			if h > ch.ih {
 				sp.toks = ch.sigPattern(r, sigKinds[r.Intn(len(sigKinds))], h-1)
@@ -758,6 +848,9 @@ func gen(r *rand.Rand, tier string, emit func(core.Case)) {
 	}
 	for i := 0; i < 40*mul; i++ {
 		emit(genBulk(r))
+	}
+	for i := 0; i < 30*mul; i++ {
+		emit(genTipChange(r))
 	}
 	// long histories: enough cycles that a counter leaking one unit per reset would pass 600
 	emit(genLong(r, 320))
@@ -1030,6 +1123,10 @@ func oracle(c core.Case, out []string) []core.Finding {
 			if strings.HasPrefix(out[i], "panic-") {
 				fs = append(fs, handoverFinding(out[i], "SwitchToConsensus", tipSet, tipSigs))
 			}
+			if strings.HasPrefix(out[i], "ok-but") {
+				fs = append(fs, core.Finding{Fingerprint: "consensus.reconstructLastCommit.fails-at-handover",
+					Desc: "SwitchToConsensus returned but the consensus state's LastCommit does not verify against state.LastValidators: " + out[i]})
+			}
 		}
 	}
 	if scripted {
@@ -1104,6 +1201,12 @@ func handoverFinding(outLine, where string, tipSet []pv, tipSigs string) core.Fi
 	kind := strings.TrimPrefix(outTok, "panic-")
 	fp := "v0.handover." + outTok
 	desc := where + " panics in reconstructLastCommit: " + outLine
+	if strings.Contains(outLine, "tipclean=true") {
+		// everything stored is valid: the seen commit of the last block verifies entry by entry
+		// against the set that had to sign it (state.LastValidators)
+		return core.Finding{Fingerprint: "consensus.reconstructLastCommit.fails-at-handover",
+			Desc: fmt.Sprintf("%s fails (%s) although the stored seen commit of the last synced block is fully valid for state.LastValidators (%s): the hand-over after block sync must complete", where, outTok, tipSigs)}
+	}
 	if (kind == "sig" || kind == "addr") && strings.Contains(outLine, "tipq=true") {
 		fp += ".unverified-rest-of-tip-seen-commit"
 		desc = fmt.Sprintf("the seen commit stored for the last synced block (%s) was only light-verified: an entry after the first +2/3 has an invalid signature or a foreign validator address, and CommitToVoteSet panics at %s (%s)", tipSigs, where, outTok)
